@@ -47,7 +47,7 @@ def r1(ctx):
     f = ctx.facts
     rep.exhaustive = True
     # decode (header already parsed) and parse_request
-    for name, body_path, selfv in (("decode", DECODE, "HeaderParsed"), ("parse_request", CODEC + "::parse_request", "HeaderParsed")):
+    for name, body_path, selfv in [("decode", DECODE, "HeaderParsed")] + ([("parse_request", CODEC + "::parse_request", "HeaderParsed")] if (CODEC + "::parse_request") in f.bodies else []):
         b = f.one(body_path)
         rep.analysed(b)
         for sign in ("<", "=", ">"):
@@ -301,35 +301,33 @@ def lin_scale_(v, k):
 
 
 def r4(ctx):
-    rep = Report("C13.R4", "limit plumbing: CLI item_size_limit -> MemcacheServerConfig.item_memory_limit -> ClientConfig.item_memory_limit -> MemcacheBinaryConnection::new -> MemcacheBinaryCodec.item_size_limit", floor=5)
+    rep = Report("C13.R4", "limit plumbing: CLI item_size_limit -> server config -> (each Client's connection) -> the codec's item size limit — composed through the public constructors and entry points", floor=4)
     f = ctx.facts
-    # codec
+    from rules import conntask
+
+    pl = conntask.plumbing(ctx)
+    nb = f.one(SERVER + "::new")
+    rep.analysed(nb)
+    C = pl["client"]
+    rep.check(C is not None, "plumbing:evaluated", "MemcacheTcpServer::new -> run -> Client::new evaluated", "cannot follow the configuration from MemcacheTcpServer::new to the Client built in the accept loop", nb.loc())
+    if C is not None:
+        lim = field_of(C, "stream", "codec", "item_size_limit")
+        want = F(P("config"), "item_memory_limit")
+        rep.check(tform(lim) == want, "connection::new", "the codec of every accepted connection gets the server config's item limit (3rd argument of MemcacheServerConfig::new)", "the codec of an accepted connection is built with limit %s, not the server configuration's item limit: the configured --max-item-size is not the one enforced" % short(lim, 80), safe_loc(f, CLIENT + "::new"))
+    # the public constructors on the way store what they are given (each is part of the library's API)
     b = f.one(CODEC + "::new")
     for p in Interp(f).run(b, [P("item_size_limit")]):
-        rep.check(field_of(p.ret, "item_size_limit") == P("item_size_limit"), "codec::new", "codec.item_size_limit <- argument", "MemcacheBinaryCodec::new does not store its argument as the item size limit (%s)" % short(field_of(p.ret, "item_size_limit"), 60), b.loc())
-    # connection
+        rep.check(field_of(p.ret, "item_size_limit") == P("item_size_limit"), "codec::new", "codec limit <- argument", "MemcacheBinaryCodec::new does not store its argument as the item size limit (%s)" % short(field_of(p.ret, "item_size_limit"), 60), b.loc())
     b = f.one(CONN + "::new")
     for p in Interp(f, models=BUF_MODELS).run(b, [P("socket"), P("item_size_limit")]):
-        rep.check(field_of(p.ret, "codec", "item_size_limit") == P("item_size_limit"), "connection::new", "connection passes its limit to the codec", "MemcacheBinaryConnection::new builds the codec with limit %s" % short(field_of(p.ret, "codec", "item_size_limit"), 60), b.loc())
-    # client
-    b = f.one(CLIENT + "::new")
-    for p in Interp(f, models=BUF_MODELS).run(b, [P("store"), P("socket"), P("addr"), P("config"), P("limit_connections")]):
-        rep.check(field_of(p.ret, "stream", "codec", "item_size_limit") == F(P("config"), "item_memory_limit"), "client::new", "client passes config.item_memory_limit to the connection", "Client::new builds its connection with limit %s" % short(field_of(p.ret, "stream", "codec", "item_size_limit"), 60), b.loc())
-    # server -> client config
-    b = f.one(SERVER + "::get_client_config")
-    for p in Interp(f).run(b, [P("self")]):
-        rep.check(field_of(p.ret, "item_memory_limit") == F(P("self"), "config", "item_memory_limit"), "server::get_client_config", "client config limit <- server config limit", "get_client_config sets item_memory_limit from %s" % short(field_of(p.ret, "item_memory_limit"), 60), b.loc())
-    b = f.one("memcrs::memcache_server::memc_tcp::MemcacheServerConfig::new")
-    for p in Interp(f).run(b, [P("timeout_secs"), P("connection_limit"), P("item_memory_limit"), P("listen_backlog")]):
-        ok = all(field_of(p.ret, n) == P(n) for n in ("timeout_secs", "connection_limit", "item_memory_limit", "listen_backlog"))
-        rep.check(ok, "server-config::new", "each constructor argument lands in its own field", "MemcacheServerConfig::new mixes up its (all-u32) arguments: %s" % short(p.ret, 160), b.loc())
-    # runtime builders: the server config's item_memory_limit <- the CLI item size limit (robust to helper extraction)
+        rep.check(field_of(p.ret, "codec", "item_size_limit") == P("item_size_limit"), "connection::new:arg", "connection passes its limit to the codec", "MemcacheBinaryConnection::new builds the codec with limit %s" % short(field_of(p.ret, "codec", "item_size_limit"), 60), b.loc())
+    # runtime builders: the server config's item limit <- the CLI item size limit
     from rules import builderfacts
 
     for fn in builderfacts.BUILDERS:
         bf = builderfacts.builder_facts(ctx, fn)
         ok = bool(bf["news"]) and all(F(P("config"), "item_size_limit") in atoms(field_of(cfg, "item_memory_limit")) for cfg, _st, _e in bf["news"])
-        rep.check(ok, "runtime_builder::%s" % fn, "server config item_memory_limit <- args.item_size_limit", "%s does not pass the CLI item size limit as the server's item_memory_limit" % fn, bf["body"].loc())
+        rep.check(ok, "runtime_builder::%s" % fn, "server config item limit <- args.item_size_limit", "%s does not pass the CLI item size limit as the server's item limit" % fn, bf["body"].loc())
     return rep
 
 
